@@ -60,6 +60,30 @@ pub fn check(ctx: &Ctx, t: &mut Tape<'_>, r: &mut Report) -> CheckResult {
 
     let c = (suite.keyed)(&key);
     let model = KsModel::new(c.as_ref(), kind, &iv);
+    // whole blocks from a block boundary can also be driven through the block-level core directly
+    let via_core = t.chance(64);
+    if via_core && off == 0 && len % bs == 0 {
+        r.label("core-level");
+        let mut core = f.make_core(Ctor::New, &key, &iv).expect("harness: ctor");
+        core.set_block_pos(blk).ok_or_else(|| Violation { sig: format!("C04/not-seekable/{ty}"), msg: "core cannot be positioned".into() })?;
+        let mut out = Vec::new();
+        let mut o = 0;
+        for (i, cut) in cuts.iter().enumerate() {
+            // round each cut down to whole blocks; the last piece takes the rest
+            let take = if i + 1 == cuts.len() { len - o } else { (cut / bs) * bs };
+            let take = take.min(len - o);
+            let inp = &data[o..o + take];
+            let mut ob = prefill(pre.0, pre.1 ^ i as u32, inp);
+            let ck = CoreKind::ALL[(kinds.get(i).map(|k| *k as usize).unwrap_or(0) + 2 * i) % CoreKind::ALL.len()];
+            core.process(ck, inp, &mut ob, &mut Sched::new([i as u8, 1, 2, 3, 1, 0]));
+            out.extend_from_slice(&ob);
+            o += take;
+        }
+        let want = model.apply_at(blk, 0, &data);
+        ensure_eq_bytes!(out, want, format!("C04/output-core/{}", f.core_type_name()), "{len} bytes from block {blk} through the block-level core");
+        ensure!(core.get_block_pos() == Some(blk + (len / bs) as u128), format!("C04/block-pos/{}", f.core_type_name()), "core block position {:?} after {} blocks from {blk}", core.get_block_pos(), len / bs);
+        return Ok(());
+    }
     let mut s = position_stream(f, &model, &key, &iv, p, bs, reach, "C04")?;
     let out = run_stream(s.as_mut(), &data, &cuts, &kinds, pre).map_err(|v| with_sig("C04", &ty, v))?;
     let want = model.apply_at(blk, off, &data);
